@@ -24,6 +24,9 @@ pub enum StepResult {
     Got(Option<u32>),
     Has(bool),
     Items(Vec<(u16, u32)>),
+    /// `Op::IterSteps`: one element per `Next` of the script (None = exhausted), followed by
+    /// whatever the final drain yielded
+    Stepped(Vec<Option<(u16, u32)>>),
     Panicked,
     Skipped,
 }
@@ -134,6 +137,7 @@ fn exec(sut: &mut Sut, op: &Op, reg: &Arc<Registry>, clock: &VerifClock) -> Step
             clock.advance(Duration::from_nanos(*ns));
             StepResult::Unit
         }
+        Op::IterSteps { script } => StepResult::Stepped(sut.iter_stepped(script, clock)),
         _ => StepResult::Skipped,
     }
 }
@@ -394,6 +398,13 @@ pub fn run_seq(trace: &Trace, skip: &BTreeSet<usize>, opts: &SeqOpts) -> SeqOutc
         if let Op::Advance { ns } = op {
             sim_time = sim_time.saturating_add(*ns);
         }
+        if let Op::IterSteps { script } = op {
+            for s in script {
+                if let crate::ops::IterStep::Advance { ns } = s {
+                    sim_time = sim_time.saturating_add(*ns);
+                }
+            }
+        }
         results.push(result.clone());
         if dead_run {
             continue;
@@ -449,6 +460,11 @@ pub fn run_seq(trace: &Trace, skip: &BTreeSet<usize>, opts: &SeqOpts) -> SeqOutc
                 (Op::Iter, StepResult::Items(items)) => {
                     model.judge_iter(i, items, &mut out);
                     rep.flag("iterations", 1);
+                }
+                (Op::IterSteps { script }, StepResult::Stepped(ys)) => {
+                    model.judge_iter_stepped(i, script, ys, &mut out);
+                    rep.flag("iterations", 1);
+                    rep.flag("stepped_iterations", 1);
                 }
                 (Op::Invalidate { k }, _) => model.invalidate(i, *k),
                 (Op::InvalidateAll, _) => model.invalidate_all(i),
@@ -819,6 +835,15 @@ pub fn run_seq(trace: &Trace, skip: &BTreeSet<usize>, opts: &SeqOpts) -> SeqOutc
                 for (k, x) in v {
                     shash.u64(*k as u64);
                     shash.u64(*x as u64);
+                }
+            }
+            StepResult::Stepped(v) => {
+                // the order of the yields is the map's; hash them as a multiset
+                let mut ys: Vec<(u16, u32)> = v.iter().flatten().copied().collect();
+                ys.sort();
+                for (k, x) in ys {
+                    shash.u64(*&k as u64);
+                    shash.u64(*&x as u64);
                 }
             }
             _ => shash.u64(7),
